@@ -1,5 +1,105 @@
 import Ptn.C13.Model
-/-! Line-protocol handler for the C13 model (core Lean only). -/
+/-! Line-protocol handler for the C13 model (core Lean only).
+
+  gauss <rows> <cols> <e_1> … <e_{rows*cols}>      (row-major)
+      entry tokens:  `n:<num>/<den>`  (number)      `s:<num>/<den>:<id>`  (coefficient, symbol id;
+      id 0 is the empty string)
+      → `ok <m> <p> <q> <n> | <L row-major> | <M' row-major> | <R row-major>`
+        (L is m×p, M' is p×q, R is q×n; a matrix whose rows do not all have the announced length is
+        answered `ragged`), numbers always as `<num>/<den>` in lowest terms, den > 0
+      → `zerodiv`   the Python code raises ZeroDivisionError (pivot with coefficient 0)
+      → `fuel`      the model ran out of fuel (never expected)
+  par <k> <a_1> … <a_k> <b_1> … <b_k>               → are_parallel_row(a, b) as `<num>/<den>`
+  rowadd <rows> <cols> <t> <s> <num>/<den> <e…>     → `fail` | `<zero:0|1> | <matrix>`
+  coladd <rows> <cols> <t> <s> <num>/<den> <e…>     → same for `_col_add`
+-/
 namespace Ptn.C13
-def handle (args : List String) : String := "bad-op"
+
+def ratStr (q : Rat) : String := s!"{q.num}/{q.den}"
+
+def parseRat (t : String) : Option Rat :=
+  match t.splitOn "/" with
+  | [a, b] =>
+    match a.toInt?, b.toNat? with
+    | some n, some d => if d = 0 then none else some (mkRat n d)
+    | _, _ => none
+  | _ => none
+
+def parseEntry (t : String) : Option Entry :=
+  match t.splitOn ":" with
+  | ["n", q] => (parseRat q).map Entry.num
+  | ["s", q, s] =>
+    match parseRat q, s.toNat? with
+    | some q, some s => some (Entry.sym q s)
+    | _, _ => none
+  | _ => none
+
+def entryStr : Entry → String
+  | .num q => s!"n:{ratStr q}"
+  | .sym q s => s!"s:{ratStr q}:{s}"
+
+def chunk {α : Type} (n : Nat) : Nat → List α → List (List α)
+  | 0, _ => []
+  | k + 1, l => l.take n :: chunk n k (l.drop n)
+
+def parseMat (rows cols : Nat) (toks : List String) : Option EMat :=
+  if toks.length ≠ rows * cols then none
+  else
+    match toks.mapM parseEntry with
+    | none => none
+    | some es => some (chunk cols rows es)
+
+def matStr {α : Type} (f : α → String) (X : List (List α)) : String :=
+  " ".intercalate (X.flatten.map f)
+
+def rectangular {α : Type} (X : List (List α)) (c : Nat) : Bool := X.all (fun r => r.length == c)
+
+def outcomeStr (m n : Nat) : Outcome → String
+  | .zeroDiv => "zerodiv"
+  | .fuelOut => "fuel"
+  | .ok L A R =>
+    let p := A.length
+    let q := R.length
+    if L.length == m && rectangular L p && rectangular A q && rectangular R n then
+      s!"ok {m} {p} {q} {n} | {matStr ratStr L} | {matStr entryStr A} | {matStr ratStr R}"
+    else "ragged"
+
+def handle (args : List String) : String :=
+  match args with
+  | "gauss" :: r :: c :: toks =>
+    match r.toNat?, c.toNat? with
+    | some rows, some cols =>
+      if rows = 0 ∨ cols = 0 then "bad-op"
+      else
+        match parseMat rows cols toks with
+        | none => "bad-op"
+        | some M => outcomeStr rows cols (gaussianElimination M)
+    | _, _ => "bad-op"
+  | "par" :: k :: toks =>
+    match k.toNat? with
+    | some k =>
+      if toks.length ≠ 2 * k then "bad-op"
+      else
+        match toks.mapM parseEntry with
+        | none => "bad-op"
+        | some es => ratStr (areParallelRow (es.take k) (es.drop k))
+    | none => "bad-op"
+  | kind :: r :: c :: t :: s :: f :: toks =>
+    if kind ≠ "rowadd" ∧ kind ≠ "coladd" then "bad-op"
+    else
+      match r.toNat?, c.toNat?, t.toNat?, s.toNat?, parseRat f with
+      | some rows, some cols, some t, some s, some f =>
+        if rows = 0 ∨ cols = 0 then "bad-op"
+        else if kind = "rowadd" ∧ (t ≥ rows ∨ s ≥ rows) then "bad-op"
+        else if kind = "coladd" ∧ (t ≥ cols ∨ s ≥ cols) then "bad-op"
+        else
+          match parseMat rows cols toks with
+          | none => "bad-op"
+          | some M =>
+            match (if kind = "rowadd" then rowAddRaw M t s f else colAddRaw M t s f) with
+            | none => "fail"
+            | some (A, z) => s!"{if z then 1 else 0} | {matStr entryStr A}"
+      | _, _, _, _, _ => "bad-op"
+  | _ => "bad-op"
+
 end Ptn.C13
